@@ -335,6 +335,22 @@ def run(world, rep, tier, only=None):
     rep.ob("C18.h", site(cpf, "inline state compared with the length on every successful copy"), not bad,
            "paths on which copy_file() may return 0 without a test of EXT4_INLINE_DATA_FL / ext2fs_inline_data_size(): %s" % bad[:2])
 
+    # ------------------------------------------------------------------ C18.j an entry that could not be copied fails the run
+    # __populate_fs() stops at the first entry it cannot copy and prints why.  Stopping with the status still 0 makes
+    # mke2fs -d report success for an image that lacks the rest of the directory: on no path from one of its error
+    # messages does it return a status known to be 0.
+    msgs = [n for n in calls_to(pf, "com_err") if T.const(arg(n, 1)) != 0]      # (code 0: a warning, "ignoring entry")
+    rep.floor("C18.j error messages in __populate_fs", len(msgs), 8)
+    exj = absint.Explorer(pf, prog)
+    exj.track = {"retval"}
+    # state at the message: explore from the entry, remember having passed a message
+    termsj = exj.run([pf.entry_node()], on_node=lambda node, env, fl, _m=set(msgs): (fl | {"msg:%d" % node.line}) if node in _m else fl)
+    silent_fail = sorted({(int(f_.split(":")[1]), node.line) for (node, env, fl, st) in termsj
+                          if node.ev and node.ev["e"] == "R" and absint._z(exj.eval(node.ev.get("x"), env))
+                          for f_ in fl if f_.startswith("msg:")})
+    rep.ob("C18.j", site(pf, "no error message is followed by a zero status"), not silent_fail,
+           "(line of com_err, line of `return` with a status known to be 0): %s" % silent_fail[:4])
+
     # ------------------------------------------------------------------ C18.w offset width
     fns = [f for f in prog.functions() if f.file in (CI, "misc/create_inode_libarchive.c", "misc/mk_hugefiles.c")] + \
           [f for f in dbg.functions() if f.file in (DUMP, "debugfs/debugfs.c", "debugfs/filefrag.c")]
